@@ -47,8 +47,13 @@ func Verif_C01_ageing() {
 	nS := int64(3 * verifChoose("successes", 2))
 	const nF = 8
 
+	// optional idle period of 2.5 windows between creating the breaker and the
+	// first recorded outcome (a long-idle dependency that then fails)
+	idle := int64(verifChoose("idle", 2)) * int64(25*time.Second)
 	verifClock = time.Duration(t0)
 	b := newGoogleBreaker()
+	t0 += idle
+	verifClock = time.Duration(t0)
 	for i := int64(0); i < nS; i++ {
 		b.markSuccess()
 	}
@@ -60,9 +65,10 @@ func Verif_C01_ageing() {
 	acc, tot := b.history()
 	err := b.accept()
 
-	eT := (d1 + d2) / I
-	e1 := d1 / I
-	succVisible := 0 > eT-N
+	eT := (idle + d1 + d2) / I
+	e1 := (idle + d1) / I
+	e0 := idle / I
+	succVisible := e0 > eT-N
 	failVisible := e1 > eT-N
 	wantAcc := verifIte(succVisible, int(nS), 0)
 	wantTot := wantAcc + verifIte(failVisible, nF, 0)
